@@ -2,6 +2,7 @@ mod binfmt;
 mod fonts;
 mod gfx;
 mod icy;
+mod igs;
 mod layers;
 mod load;
 mod opt;
@@ -41,6 +42,7 @@ fn main() {
         "c18" => small::c18(&a),
         "c19" => small::c19(&a),
         "c20" => gfx::c20(&a),
+        "igs" => igs::igs(&a),
         other => {
             eprintln!("unknown driver {other}");
             std::process::exit(2);
